@@ -57,6 +57,9 @@ def specs(tier):
     out.append(dict(scenario=SCN, kwargs=kw, kind="lasso", K=kl, pred="poster_open", timeout=to, replay="posting_replay"))
     if kw.get("handler_post"):
       out.append(dict(scenario=SCN, kwargs=kw, kind="deadlock", K=kd, pred="consumer_stuck", timeout=to, replay="posting_replay"))
+      # "the system reaches quiescence": when nobody can move, every posted event has been dispatched (C04 asks this of the queues with
+      # room; here it is asked of the full one, where posts take the no-room path)
+      out.append(dict(scenario=SCN, kwargs=kw, kind="deadlock", K=kd, pred="quiescent_lost", timeout=to, replay="posting_replay"))
     if kw["nposters"] == 1:
       out.append(dict(scenario=SCN, kwargs=kw, kind="adequacy", K=kl, timeout=to))
   return out
@@ -78,6 +81,10 @@ def signature(spec, r):
     where = real["waiting_at"].get(str(npost))
     return ("deadlock:object-thread-blocked-in-its-own-post", "the object's thread is blocked at %s inside a post made by its own handler; real objects: %s; schedule: %s" % (
       where, real, r["trace"]), where is not None and tuple(where) != ("Q", "get"))
+  if spec.get("pred") == "quiescent_lost":
+    lost = bool(real["deque"]) and real["tokens"] == 0
+    return ("quiescent-with-pending-events:full-queue", "all posters returned, the consumer waits; the real queue (capacity %d, full at the start) holds %s with %d wake-up "
+            "tokens, dispatched %s; schedule: %s" % (spec["kwargs"]["capacity"], real["deque"], real["tokens"], real["dispatch_log"], r["trace"]), lost)
   return ("deadlock:poster-blocked",
           "no thread can move and poster(s) %s never returned; real objects: %s; schedule: %s" % (open_posters, real, r["trace"]), bool(open_posters))
 
